@@ -115,6 +115,9 @@ enum DupShape {
     Multi(usize),
     /// m adjacent copies at the end
     RunAtEnd(usize),
+    /// one build per j in from..to: the n keys followed by key #j again. Over a whole sweep 0..n the
+    /// duplicated pair takes every rank of the signature-sorted shard, in every attempt
+    RankSweep { from: usize, to: usize },
 }
 
 impl DupShape {
@@ -125,11 +128,13 @@ impl DupShape {
             DupShape::FarApart => "far-apart".into(),
             DupShape::Multi(m) => format!("x{}-spread", m),
             DupShape::RunAtEnd(m) => format!("x{}-run-at-end", m),
+            DupShape::RankSweep { .. } => "rank-sweep".into(),
         }
     }
     fn extra(&self) -> usize {
         match *self {
             DupShape::Multi(m) | DupShape::RunAtEnd(m) => m - 1,
+            DupShape::RankSweep { .. } => 1,
             _ => 1,
         }
     }
@@ -158,6 +163,8 @@ impl DupShape {
                     o.push((n - 1) as u32);
                 }
             }
+            // served through ProbeLender::with_tail, one j at a time (the sequence shown is that of the first j)
+            DupShape::RankSweep { from, .. } => o.push(from as u32),
         }
         o
     }
@@ -330,7 +337,7 @@ fn drive<F, O: PartialEq + Debug>(
     has_values: bool,
     keykind: String,
     order: &Option<Vec<u32>>,
-    build: impl Fn(Fault, Fault, u64, u32, &Stats, &Stats) -> anyhow::Result<F>,
+    build: impl Fn(Fault, Fault, u64, u32, Option<u32>, &Stats, &Stats) -> anyhow::Result<F>,
     get: impl Fn(&F, usize) -> O,
     want: impl Fn(usize) -> O,
     len: impl Fn(&F) -> usize,
@@ -353,6 +360,12 @@ fn drive<F, O: PartialEq + Debug>(
                 dup_positions(o),
                 dup_key(o)
             ),
+            (Some(DupShape::RankSweep { from, to }), None) => format!(
+                ", key sequence = the {} keys followed by key #j once more, one build for every j in {}..{}",
+                n,
+                from,
+                (*to).min(n)
+            ),
             _ => String::new(),
         },
         s.cfg.show(n)
@@ -360,11 +373,12 @@ fn drive<F, O: PartialEq + Debug>(
     c.describe(|| format!("{}; fault plan: {:?} in {} lender(s), retry passes forced by {:?}; tag {}", base, s.fault, s.wh.name(), s.retry, fault_tag(tag)));
     let dups = s.dup.is_some();
     let max_rewinds = if dups { s.max_dup_passes + 6 } else { effective_limit(n) };
+    let tail = Cell::new(None::<u32>);
     let run = |kf: Fault, vf: Fault, seed: u64| -> Outcome<F> {
         let kst = Stats::new();
         let vst = Stats::new();
         let t0 = std::time::Instant::now();
-        let res = catch(|| build(kf, vf, seed, max_rewinds, &kst, &vst));
+        let res = catch(|| build(kf, vf, seed, max_rewinds, tail.get(), &kst, &vst));
         bump(&BUILDS, 1);
         Outcome { res, kst, vst, secs: t0.elapsed().as_secs_f64() }
     };
@@ -442,12 +456,18 @@ fn drive<F, O: PartialEq + Debug>(
     }
 
     // 2. the faulty runs
-    let positions: Vec<Option<usize>> = match s.fault {
-        FaultKind::Item { pos, .. } => pos.indices(seq_len).into_iter().map(Some).collect(),
+    let positions: Vec<Option<usize>> = match (s.fault, s.dup) {
+        (FaultKind::Item { pos, .. }, _) => pos.indices(seq_len).into_iter().map(Some).collect(),
+        // duplicate-rank sweep: "position" = index of the key that is appended once more
+        (FaultKind::NoFault, Some(DupShape::RankSweep { from, to })) => (from..to.min(n)).map(Some).collect(),
         _ => vec![None],
     };
+    let sweep = matches!(s.dup, Some(DupShape::RankSweep { .. }));
     let mut delivered = 0u64;
     for p in positions {
+        if sweep {
+            tail.set(p.map(|j| j as u32));
+        }
         let mk = |lender_len: usize, salt: usize| -> Fault {
             match s.fault {
                 FaultKind::NoFault => Fault::None,
@@ -463,7 +483,8 @@ fn drive<F, O: PartialEq + Debug>(
         let fired_v = o.vst.fired.get();
         let fired = fired_k.is_some() || fired_v.is_some();
         let ctxs = format!(
-            "faults: keys {:?} values {:?} (delivered: keys {:?} values {:?}; lender calls after delivery: {}), builder seed {}; {}; {}",
+            "{}faults: keys {:?} values {:?} (delivered: keys {:?} values {:?}; lender calls after delivery: {}), builder seed {}; {}; {}",
+            if sweep { format!("key sequence = the {} keys followed by key #{} ({}) again; ", n, p.unwrap(), show(p.unwrap())) } else { String::new() },
             kf,
             vf,
             fired_k,
@@ -575,8 +596,9 @@ macro_rules! func_variant {
     ($fname:ident, $W:ty, $B:ident, $S:ty, $E:ty, $K:ident) => {
         fn $fname(c: &mut Case, s: &Scn) {
             let keys = $K::make(s);
-            let order = s.dup.map(|d| d.order(s.n));
-            let seq_len = order.as_ref().map(|o| o.len()).unwrap_or(s.n);
+            let sweep = matches!(s.dup, Some(DupShape::RankSweep { .. }));
+            let order = if sweep { None } else { s.dup.map(|d| d.order(s.n)) };
+            let seq_len = if sweep { s.n + 1 } else { order.as_ref().map(|o| o.len()).unwrap_or(s.n) };
             // values by position in the sequence; the oracle maps key index -> value of its first position
             let vals: Vec<$W> = (0..seq_len).map(|p| s.val(p, <$W>::BITS) as $W).collect();
             let tag = c.seed;
@@ -587,12 +609,12 @@ macro_rules! func_variant {
                 true,
                 keys.kind(),
                 &order,
-                |kf, vf, seed, maxr, kst, vst| {
+                |kf, vf, seed, maxr, tail, kst, vst| {
                     let mut kl = ProbeLender::new(keys.src(), kst).with_fault(kf, tag);
                     if let Some(o) = order.as_ref() {
                         kl = kl.with_order(o);
                     }
-                    let kl = kl.with_max_rewinds(maxr);
+                    let kl = kl.with_tail(tail).with_max_rewinds(maxr);
                     let vl = ProbeLender::new(SliceSrc(&vals[..]), vst).with_fault(vf, tag).with_max_rewinds(maxr);
                     let mut cfg = s.cfg.clone();
                     cfg.seed = seed;
@@ -617,7 +639,8 @@ macro_rules! filter_variant {
     (@gen $fname:ident, $W:ty, $D:ty, $S:ty, $E:ty, $K:ident, ($($bits:expr,)?)) => {
         fn $fname(c: &mut Case, s: &Scn) {
             let keys = $K::make(s);
-            let order = s.dup.map(|d| d.order(s.n));
+            let sweep = matches!(s.dup, Some(DupShape::RankSweep { .. }));
+            let order = if sweep { None } else { s.dup.map(|d| d.order(s.n)) };
             let tag = c.seed;
             drive(
                 c,
@@ -626,12 +649,12 @@ macro_rules! filter_variant {
                 false,
                 keys.kind(),
                 &order,
-                |kf, _vf, seed, maxr, kst, _vst| {
+                |kf, _vf, seed, maxr, tail, kst, _vst| {
                     let mut kl = ProbeLender::new(keys.src(), kst).with_fault(kf, tag);
                     if let Some(o) = order.as_ref() {
                         kl = kl.with_order(o);
                     }
-                    let kl = kl.with_max_rewinds(maxr);
+                    let kl = kl.with_tail(tail).with_max_rewinds(maxr);
                     let mut cfg = s.cfg.clone();
                     cfg.seed = seed;
                     vb_configure!(VBuilder::<$W, $D, $S, $E>::default(), &cfg, s.n).try_build_filter(kl, $($bits,)? no_logging![])
@@ -695,7 +718,7 @@ fn base_cfg(r: &mut SmallRng, offline: bool, check_dups: bool) -> Cfg {
 fn main() {
     default_thread_stacks();
     let mut ctx = Ctx::from_args("C17");
-    ctx.set_hang_limit(600);
+    ctx.set_hang_limit(300);
     let debug = cfg!(debug_assertions);
     let thorough = ctx.thorough();
     let mut r = ctx.rng(17);
@@ -895,6 +918,36 @@ fn main() {
                         run(&mut ctx, v, s);
                     }
                 }
+            }
+        }
+    }
+
+    // 4b. the duplicated pair at every rank of the signature-sorted shard (duplicate detection compares
+    //     neighbours after sorting: a comparison that skips some ranks, e.g. block boundaries, misses it there)
+    for &(v, n) in &[(0usize, 4200usize), (5usize, 2100usize)] {
+        let mut from = 0;
+        while from < n {
+            let to = (from + 300).min(n);
+            let cfg = Cfg { check_dups: true, seed: r.random::<u64>() >> 8, ..Cfg::default() };
+            let s = mk(&mut r, "duplicates", n, cfg, Where::Keys, FaultKind::NoFault, Retry::None, Some(DupShape::RankSweep { from, to }));
+            run(&mut ctx, v, s);
+            from = to;
+        }
+    }
+
+    // 4c. more shards than solver threads and a duplicate: the attempt fails while the feeder thread still
+    //     has shards to hand out (a build that never returns is a hang violation)
+    for v in (0..VARIANTS.len()).filter(|&v| VARIANTS[v].sharded) {
+        // (few cases: on a tree where this deadlocks every one of them costs the whole hang limit)
+        for &(n, t, shape) in &[(100_000usize, 1usize, DupShape::FarApart), (200_000, 2, DupShape::Multi(4)), (400_000, 3, DupShape::Adjacent)] {
+            if n > 200_000 && (debug || !thorough) {
+                continue;
+            }
+            {
+                let cfg = Cfg { check_dups: true, threads: Some(t), seed: r.random::<u64>() >> 8, hint: pick(&mut r, &[Hint::Absent, Hint::Exact, Hint::Tenth]), ..Cfg::default() };
+                let mut s = mk(&mut r, "duplicates-more-shards-than-threads", n, cfg, Where::Keys, FaultKind::NoFault, Retry::None, Some(shape));
+                s.max_dup_passes = 8;
+                run(&mut ctx, v, s);
             }
         }
     }
